@@ -86,6 +86,7 @@ bool ops_xmlfault(World &w, const Op &o);
 bool ops_snapshot(World &w, const Op &o);   // snap_load / snap_enum (C18)
 const char *snapshot_kind(size_t i);         // "linux" | "x86" | "x86+linux"
 int snapshot_load(hwloc_topology_t t, size_t index, unsigned comp, unsigned env, std::string *desc);   // load an intact bundled snapshot into a configured topology ("src snap")
+long snapshot_index(const char *name);       // index of the bundled snapshot with that name, -1 if absent
 size_t snapshot_count();                    // bundled snapshots (sorted list; a function of the repository content only)
 // WF + printers + XML/synthetic exports + dup + helper battery on a temporary topology; WF class = <clause>.<tag>@<op>; *out = the dump taken
 void readonly_battery(World &w, hwloc_topology_t t, const char *own, const std::string &tag, const char *what, uint64_t sel, Dump *out = nullptr);
